@@ -6,6 +6,7 @@ import YaraModel.Lemmas.ReAlgebra
 import YaraModel.Lemmas.ReChain
 import YaraModel.Lemmas.ReEmit
 import YaraModel.Lemmas.ReAtoms
+import YaraModel.Lemmas.ReAtomEntry
 namespace YaraModel.C02
 open YaraModel.Re
 
@@ -232,5 +233,34 @@ theorem reAtoms_cover_partial (q : Atom → Int) (fl : Flags) (hw : fl.wide = fa
 open YaraModel.ReAtoms in
 /-- instance: `10 ?? 41 42 43 ?? 20 30` — the heuristic of atoms.c picks the interior window `41 42 43` (leaf 2) -/
 example : (chosen quality (.cat (.lit 0x10) (.cat .any (.cat (.lit 0x41) (.cat (.lit 0x42) (.cat (.lit 0x43) (.cat .any (.cat (.lit 0x20) (.lit 0x30))))))))).map (fun a => a.map (·.byte)) = [[0x41, 0x42, 0x43]] := by decide
+
+open YaraModel.ReVm YaraModel.ReEmit in
+/-- `verify_from_atom_sound`: the verification step of the scanner (`_yr_scan_verify_re_match`) is sound for hex strings, for
+    EVERY candidate offset — however the automaton found it (soundness of the chain atoms → automaton → scan → verification
+    therefore needs nothing about atoms or the automaton).  Let `x` be a byte / masked byte / `??` node of a hex pattern
+    (`HexAst (c.fill x)`: the node lies under concatenations and alternatives — every atom position of a hex string); the
+    FORWARD code is entered at the node's instruction (`holePos c 0`, the atom's forward_code_ref) and the BACKWARD code
+    just behind the node's backward instruction (`bwdPos x c 0`, its backward_code_ref — both positions are compared with
+    the real automaton entries on every generated string).  If the forward run from offset `o` reports `lf` and the
+    backward run from `o` reports `lb`, then lb ≤ o and the WHOLE pattern matches buf[o - lb, o + lf).  For ALL hex
+    ASTs, nodes, buffers, offsets, byte or wide flags.
+    Not yet proved: the converse (every match is found from the atom of `reAtoms_cover_partial`: needs VM completeness), and
+    the model of the callback that combines the two runs and feeds the match list. -/
+theorem verify_from_atom_sound (c : Ctx) (x : Re) (hx : AtomLeaf x) (hh : HexAst (c.fill x))
+    (hszf : (emit false (c.fill x) 0).1.length < 32000) (hszb : (emit true (c.fill x) 0).1.length < 32000)
+    (buf : Bytes) (o : Nat) (ho : o ≤ buf.size) (flf flb : VmFlags) (hf1 : flf.backwards = false) (hf2 : flf.scan = false)
+    (hb1 : flb.backwards = true) (hb2 : flb.scan = false) (hsame : specFlagsG flf = specFlagsG flb)
+    (fuel1 fuel2 : Nat) (m1 m2 : Int) (c1 c2 : List Nat)
+    (hfw : exec { code := (emitCode false (c.fill x)).toArray, entry := holePos c 0, buf := buf, start := o, fl := flf, syncFuel := fuel1 } = .done m1 c1)
+    (hbw : exec { code := (emitCode true (c.fill x)).toArray, entry := bwdPos x c 0, buf := buf, start := o, fl := flb, syncFuel := fuel2 } = .done m2 c2)
+    (lf lb : Nat) (hlf : lf ∈ c1) (hlb : lb ∈ c2) :
+    lb ≤ o ∧ Re.Matches (specFlagsG flf) buf (c.fill x) (o - lb) (o + lf) :=
+  YaraModel.ReEmit.verify_from_atom_sound c (hexAst_ctx hh) x hx hszf hszb buf o ho flf flb hf1 hf2 hb1 hb2 hsame fuel1 fuel2 m1 m2 c1 c2 hfw hbw lf lb hlf hlb
+
+open YaraModel.ReEmit in
+/-- instance: in `10 ?? 41 42 43 ?? 20 30` the atom `41 42 43` begins at the third node: forward code position 3, backward
+    code position 11 (+ 15 bytes of forward code = the 26 the real automaton entry shows) -/
+example : holePos (.catR (.lit 0x10) (.catR .any (.catL .hole (.cat (.lit 0x42) (.cat (.lit 0x43) (.cat .any (.cat (.lit 0x20) (.lit 0x30)))))))) 0 = 3 ∧
+    bwdPos (.lit 0x41) (.catR (.lit 0x10) (.catR .any (.catL .hole (.cat (.lit 0x42) (.cat (.lit 0x43) (.cat .any (.cat (.lit 0x20) (.lit 0x30)))))))) 0 = 11 := by decide
 
 end YaraModel.C02
